@@ -39,4 +39,5 @@ check("C16", "One selection round of the block-fetch scheduler from any queue st
       "trusted: mirsym semantics and container models; queue pre-sorted (sort modelled as identity); other scheduler operations and liveness outside", "MIR-to-SMT symbolic execution (mirsym) decided by z3; inductive step from an arbitrary invariant state", "DESIGN.md 4/C16")
 NOT_APPLICABLE.setdefault('C17', NA_PENDING)
 NOT_APPLICABLE.setdefault('C18', NA_PENDING)
-NOT_APPLICABLE.setdefault('C19', NA_PENDING)
+check("C19", "Each of add_slip, delete_slip, generate_slips and find_slips_for_staking re-establishes the wallet invariant (available balance = sum of the outputs listed as unspent; lists consistent) from every wallet state with up to 3 slips satisfying it, with no arithmetic panic, and generate_slips' inputs and change add up to the requested amount in unbounded arithmetic. Agreement with the ledger is not claimed.",
+      "trusted: mirsym semantics, map/set models; amounts within the token supply; ledger agreement, pending transactions, reorg handling outside", "MIR-to-SMT symbolic execution (mirsym) decided by z3; inductive steps from an arbitrary invariant state", "DESIGN.md 4/C19")
